@@ -69,7 +69,12 @@ parser! {
 
 		pub rule param(s: &ParserSettings) -> ExprParam = destruct:destruct(s) expr:(_ "=" _ expr:expr(s){expr})? { ExprParam { destruct, default: expr.map(Rc::new) } }
 		pub rule params(s: &ParserSettings) -> ExprParams
-			= params:param(s) ** comma() comma()? { ExprParams::new(params) }
+			= params:param(s) ** comma() comma()? {?
+				if ExprParams::duplicate_name(&params).is_some() {
+					return Err("<unique parameter name>")
+				}
+				Ok(ExprParams::new(params))
+			}
 			/ { ExprParams::new(Vec::new()) }
 
 		pub rule arg(s: &ParserSettings) -> (Option<IStr>, Rc<Expr>)
